@@ -99,12 +99,33 @@ def ltCps : List Char → List Char → Bool
   | a :: as, b :: bs =>
     if a.toNat < b.toNat then true else if b.toNat < a.toNat then false else ltCps as bs
 
-def insertSorted (x : List Char) : List (List Char) → List (List Char)
+/-- stable insertion sort for a strict order `lt` (Python's `sorted` is stable) -/
+def insertBy {α : Type} (lt : α → α → Bool) (x : α) : List α → List α
   | [] => [x]
-  | y :: ys => if ltCps y x then y :: insertSorted x ys else x :: y :: ys
+  | y :: ys => if lt y x then y :: insertBy lt x ys else x :: y :: ys
 
-/-- `sorted(strings)` (any stable or unstable sort gives the same list of strings) -/
-def sortCps (l : List (List Char)) : List (List Char) := l.foldr insertSorted []
+def sortBy {α : Type} (lt : α → α → Bool) (l : List α) : List α := l.foldr (insertBy lt) []
+
+/-- `sorted(strings)` -/
+def sortCps (l : List (List Char)) : List (List Char) := sortBy ltCps l
+
+/-- `coord.rstrip('0123456789')`: the column letters of a coordinate -/
+def coordColumn (c : List Char) : List Char := (c.reverse.dropWhile Char.isDigit).reverse
+
+/-- `XlsObject._coord_sort_key`: `(len(column), column, int(row) if row else 0)` -/
+def coordKey (c : List Char) : Nat × List Char × Nat :=
+  ((coordColumn c).length, coordColumn c, Nat.ofDigitChars 10 (c.drop (coordColumn c).length) 0)
+
+/-- `<` on such key tuples -/
+def ltKey (a b : Nat × List Char × Nat) : Bool :=
+  if a.1 < b.1 then true else if b.1 < a.1 then false
+  else if ltCps a.2.1 b.2.1 then true else if ltCps b.2.1 a.2.1 then false
+  else decide (a.2.2 < b.2.2)
+
+def ltCoord (a b : List Char) : Bool := ltKey (coordKey a) (coordKey b)
+
+/-- `sorted(coordinates, key=self._coord_sort_key)` -/
+def sortCoords (l : List (List Char)) : List (List Char) := sortBy ltCoord l
 
 /-! ## rules and their binding to the title row (`_ObjScrCellsMap.bind_titles_row`) -/
 
@@ -379,7 +400,7 @@ def attrOrigin : Origin → Option Key → Except Err (List Char)
   | .na, none => .ok Gen.C18.naOrigin
   | .skipped, none => .ok Gen.C18.skippedOrigin
   | .cell c, none => .ok c
-  | .range items, none => .ok (rangeDescr (sortCps (items.map (fun kc => kc.2))))
+  | .range items, none => .ok (rangeDescr (sortCoords (items.map (fun kc => kc.2))))
   | .range items, some k =>
     match dictGet items k with
     | some c => .ok c
